@@ -210,6 +210,7 @@ def check(db, rep):
     _legacy_fields(db, rep)
     _nested_found(db, rep)
     _raw_cache_coupled(db, rep)
+    _morphology_total(db, rep)
     _write_back_and_resolve(db, rep)
 
 
@@ -384,7 +385,7 @@ def _write_back_and_resolve(db, rep):
             for combo in itertools.product(kinds, repeat=n_refs):
                 cases += 1
                 log = []
-                this = Obj(refs=[Obj(kind=k, offset=o, idx=i) for i, (k, o) in enumerate(combo)], context=Obj())
+                this = Obj(refs=[Obj(kind=k, offset=o, idx=i, resolvedText=bytearray()) for i, (k, o) in enumerate(combo)], context=Obj())
 
                 def on_call(it, fn, n, env, log=log):
                     cs = n.get('cs') or ''
@@ -397,6 +398,10 @@ def _write_back_and_resolve(db, rep):
                             return o['kind'] == 'E'
                         if last == 'IsCollaboration':
                             return o['kind'] == 'C'
+                        if last == 'GetEntity':
+                            if o['kind'] != 'E':
+                                raise OutOfFragment('GetEntity on a collaboration reference (bad_variant_access)')
+                            return b'X1'                  # every entity reference of the scenario mentions the same entity (in whatever form)
                         if last == 'GetOffset':
                             if o['kind'] != 'C':
                                 raise OutOfFragment('GetOffset on an entity reference (bad_variant_access)')
@@ -934,3 +939,48 @@ def resolution_idempotent_rule(db, r15):
             r15.violation(name, '%s:%d' % (f_.file, f_.line), bad)
         else:
             r15.ok(name, '%d thesauri, loops included: a second and a third update change nothing, and the members of a loop can be visited in either order' % len(cases), '%s:%d' % (f_.file, f_.line))
+
+
+def _morphology_total(db, rep):
+    """r16: the Morphology constructor from a list of tag texts, interpreted (with TrimWhitespace; Str2Grammem supplied as the table r2 decides):
+    the set built is exactly the set of the known grammemes in the list, wherever the unknown ones stand. A reference that carries a tag the
+    tables do not know (OpenCorpora has many) must keep its other grammemes - otherwise it resolves in another form, is written back
+    shortened, or stops being a reference at all."""
+    import itertools
+    r16 = rep.rule('r16', 'MORPHOLOGY-TOTAL: a list of tag texts yields exactly its known grammemes, wherever unknown tags stand in it', 1)
+    cands = [g for g in db.by_name.get(L + 'Morphology::Morphology', []) if g.body >= 0 and g.rec.get('params') and 'vector' in g.rec['params'][0]['type']]
+    if len(cands) != 1:
+        r16.broken('anchor vanished: Morphology(const std::vector<std::string_view>&)')
+        return
+    f = cands[0]
+    gram = {e['name']: e['val'] for e in db.enum(L + 'Grammem')['enumerators']}
+    known = {'sing': gram.get('sing'), 'plur': gram.get('plur'), 'nomn': gram.get('nomn'), 'gent': gram.get('gent')}
+    if 'invalid' not in gram or any(v is None for v in known.values()):
+        r16.broken('Grammem enumerators not recognised')
+        return
+
+    def on_call(it, fn, n, env):
+        cs = n.get('cs') or ''
+        if cs.endswith('::Str2Grammem') and n.get('args'):
+            t = bytes(it.eval(fn, fn.stmts[n['args'][0]], env)).decode('utf-8', 'replace')
+            return known.get(t, gram['invalid'])
+        return NOT_HANDLED
+    words = ['sing', 'nomn', 'plur', 'anim', '', ' gent ']
+    bad, cases = None, 0
+    try:
+        for k in (1, 2, 3):
+            for combo in itertools.product(words, repeat=k):
+                cases += 1
+                this = Obj(__cls__=L + 'Morphology', tags=set())
+                Interp(db, on_call=on_call, max_steps=200000).construct(f, this, [[w.encode() for w in combo]])
+                want = {known[w.strip()] for w in combo if w.strip() in known}
+                if set(this['tags']) != want and bad is None:
+                    inv = {v: k_ for k_, v in known.items()}
+                    bad = 'the tags %s give the grammemes %s; the known ones among them are %s' % (list(combo), sorted(inv.get(x, x) for x in this['tags']), sorted(inv[x] for x in want))
+    except OutOfFragment as e:
+        r16.broken('Morphology constructor outside the evaluable fragment: %s' % e)
+        return
+    if bad:
+        r16.violation('Morphology(list)', '%s:%d' % (f.file, f.line), bad + ': a reference such as @{X2|inan,plur,gent} loses its form (or stops being a reference), is resolved in the wrong form and written back shortened')
+    else:
+        r16.ok('Morphology(list)', '%d tag lists with unknown, empty and padded tags in every position' % cases, '%s:%d' % (f.file, f.line))
